@@ -16,6 +16,8 @@ FORMS = ["v", "x", "1", "a;b", '""', '"q"', '"a b"', '"a\\"b"', '"\\""', '"x"', 
 CORE = ["v", '""', '"a b"', '"a\\"b"', "${r}", "[[b c]]"]
 HELPS = ['"h"', '"help text"', "[[h]]", "${h}"]
 DEFAULTS = [None, "ON", "OFF", "${d}"]
+TALKATIVE = [["The :type: of this is up to the caller."], ["Doc.", "", ":type: path"], ["Doc.", "", ":Default value: none really"],
+             ["See :Help text: below.", "", ":Help text: hand written"], [":type: path"]]
 
 
 def positions(ev):
@@ -110,6 +112,27 @@ def run(ctx):
                {"k": "set", "doc": 1, "name": "TWIN_VAR", "values": ["v"], "doctext": ["Same."]}):
         jobs.append([{"k": "if", "doc": 0}, dict(ev), {"k": "close"}, {"k": "if", "doc": 0}, dict(ev), {"k": "close"}])
         jobs.append([dict(ev), {"k": "generic", "doc": 0}, dict(ev), dict(ev)])
+    # CMake's own keywords at the end of the value list are values like any other
+    for head in ([], ["v"], ["${r}"], ['"a b"'], ["a", "b"]):
+        for tail in (["PARENT_SCOPE"], ["CACHE", "BOOL", '"doc"'], ["CACHE", "STRING", '"doc"', "FORCE"],
+                     ["CACHE", "INTERNAL", '""'], ["PARENT_SCOPE", "x"], ["FORCE"]):
+            for doc in (1, 0):
+                jobs += positions({"k": "set", "doc": doc, "values": head + tail, "name": "SELF_VAR"})
+    # doccomment text that talks about the generated fields, or carries hand-written fields of the same name
+    for dt in TALKATIVE:
+        for vals in ([], ["v"], ["a", "b"]):
+            jobs += positions({"k": "set", "doc": 1, "values": vals, "name": "SELF_VAR", "doctext": dt})
+        for d in (None, "ON"):
+            ev = {"k": "option", "doc": 1, "doctext": dt}
+            if d:
+                ev["default"] = d
+            jobs += positions(ev)
+    # an ordinary comment between the doccomment and its command
+    for gap in ("# plain comment", "#[[ bracket comment ]]", "#[==[ two\nlines ]==]", "# one\n# two"):
+        gap = gap.replace("\\n", "\n")
+        for vals in ([], ["v"], ["a", "b"]):
+            jobs += positions({"k": "set", "doc": 1, "values": vals, "name": "SELF_VAR", "docgap": gap})
+        jobs += positions({"k": "option", "doc": 1, "docgap": gap})
     case = common.rot(["lower", "upper", "mixed"], ctx.seed + 4)[0]
     ctx.cov["bounds"] = {"value_forms": FORMS, "core": CORE, "max_values_all_forms": k_all, "max_values_core": k_core,
                          "helps": HELPS, "defaults": DEFAULTS, "positions": 4, "command_case": case}
